@@ -34,6 +34,9 @@ func init() {
 }
 
 func runC11(c *an.Ctx) {
+	// ---- R10: an oversized, truncated or non-200 list download never replaces the list (shared with C13-R1)
+	c.Floor("C11-R10", 3)
+	c.Borrow("C11-R10", runC13, func(o an.Obligation) bool { return o.Rule == "C13-R1" })
 	c11LineSource(c)
 	// ---- R8: the safe-browsing filters are consulted unless the profile's own rules allow the host
 	c.Floor("C11-R8", 1)
